@@ -987,7 +987,7 @@ theorem startsWith_section_colon (name : Str) (h : NotSection name) : startsWith
   | false => rfl
   | true =>
     unfold NotSection at h
-    rw [← hasPrefix_eq_isPrefixOf] at h
+    have h1 : hasPrefix name (str "SECTION") = false := by rw [hasPrefix_eq_isPrefixOf]; exact h
     have h2 : hasPrefix name (str "SECTION:") = true := by rw [hasPrefix_eq_isPrefixOf]; exact hs
     have : hasPrefix name (str "SECTION") = true := by
       have hgen : ∀ (s p q : Str), hasPrefix s (p ++ q) = true → hasPrefix s p = true := by
@@ -1002,7 +1002,7 @@ theorem startsWith_section_colon (name : Str) (h : NotSection name) : startsWith
             simp only [List.cons_append, hasPrefix, Bool.and_eq_true] at hq ⊢
             exact ⟨hq.1, ih xs q hq.2⟩
       exact hgen name (str "SECTION") [':'] h2
-    rw [this] at h; cases h
+    rw [this] at h1; cases h1
 
 theorem bodyLines_image (b : SBlock) (n : Nat) (inds : List Str) (h : WfSBlock b) :
     bodyLines (blockImage b n inds) = bodyOf b := by
